@@ -131,7 +131,7 @@ CHECKS["C18"] = (
 )
 CHECKS["C19"] = (
     "property-based testing with re-solve oracles: profiles re-solved at mu +- h, p +- h, T +- h (Richardson h, h/2 with an error gate) against the reported N, dn_dmu, dn_dp, dn_dt and adsorption enthalpies; Henry limit along decreasing bulk densities; metamorphic box-length / resolution invariance, monotonic decrease with T and pDGT comparison for the surface tension",
-    "Per quick run 128 pore cases (slit / cylinder / sphere, LJ93 / Steele / SimpleLJ93 / hard wall, pure and binary, spherical and chain molecules), 96 Henry-limit cases and 64 planar-interface cases; every case consists of 7-15 profile solves polished by an own Newton iteration to 1e-13 at exactly the requested bulk state.",
+    "Per quick run 128 pore cases (slit / cylinder / sphere, LJ93 / Steele / SimpleLJ93 / hard wall, pure and binary, spherical and chain molecules), 96 Henry-limit cases, 64 planar-interface cases and 480 uniform-response cases (all 8 grid kinds incl. oblique periodic cells: for a uniform profile without potential dn_dmu, dn_dp, dn_dt, the Henry coefficients and the ideal-gas enthalpy of adsorption have closed forms in bulk properties); every case consists of 7-15 profile solves polished by an own Newton iteration to 1e-13 at exactly the requested bulk state.",
     "About 40 % of the generated pores fail their reference solve and are discarded (spread over all classes). Tolerances: derivatives 2e-4 (measured 4e-6), Gibbs relation 2e-4 in slits and first-order convergence in spheres, Henry 1e-4, gamma(L,n) 1e-3, pDGT within 15 % (PeTS reaches 10 % at 0.5 Tc). Open known findings: absolute GMRES tolerance spoils dn_dt of dilute profiles, polar-transform plateau of the Gibbs relation in cylinders, NaN dn_dt for some functionals, solve_pdgt returning NaN.",
     "DESIGN.md section 4, C19",
 )
